@@ -142,6 +142,15 @@ impl<'tcx, 'b> Cx<'tcx, 'b> {
               _ => None,
             };
             let bytes = const_bytes(self.tcx, evaluated.as_ref().unwrap_or(&c.const_));
+            let relocs = const_fn_relocs(self.tcx, evaluated.as_ref().unwrap_or(&c.const_));
+            let rj = if relocs.is_empty() {
+              String::new()
+            } else {
+              format!(
+                ",\"fnptrs\":[{}]",
+                relocs.iter().map(|(o, p)| format!("[{},{}]", o, esc(p))).collect::<Vec<_>>().join(",")
+              )
+            };
             let bj = match bytes {
               Some(b) => format!(",\"bytes\":[{}]", b.iter().map(|x| x.to_string()).collect::<Vec<_>>().join(",")),
               None => String::new(),
@@ -247,11 +256,12 @@ impl<'tcx, 'b> Cx<'tcx, 'b> {
               }
             }
             format!(
-              "{{\"k\":\"constx\",\"ty\":{},\"repr\":{}{}{}}}",
+              "{{\"k\":\"constx\",\"ty\":{},\"repr\":{}{}{}{}}}",
               esc(&ty_str(ty)),
               esc(&format!("{:?}", c.const_)),
               bj,
-              sj
+              sj,
+              rj
             )
           }
         }
@@ -377,6 +387,33 @@ fn const_bytes<'tcx>(tcx: TyCtxt<'tcx>, c: &mir::Const<'tcx>) -> Option<Vec<u8>>
     }
     _ => None,
   }
+}
+
+/// function pointers stored in a constant allocation (e.g. a table of constructors): (byte offset, def path)
+fn const_fn_relocs<'tcx>(tcx: TyCtxt<'tcx>, c: &mir::Const<'tcx>) -> Vec<(u64, String)> {
+  use rustc_middle::mir::interpret::{GlobalAlloc, Scalar};
+  use rustc_middle::mir::ConstValue;
+  let mut out = Vec::new();
+  let mir::Const::Val(cv, _ty) = c else { return out };
+  let (aid, start) = match cv {
+    ConstValue::Scalar(Scalar::Ptr(ptr, _)) => {
+      let (prov, off) = ptr.prov_and_relative_offset();
+      (prov.alloc_id(), off.bytes())
+    }
+    ConstValue::Indirect { alloc_id, offset } => (*alloc_id, offset.bytes()),
+    ConstValue::Slice { alloc_id, .. } => (*alloc_id, 0),
+    _ => return out,
+  };
+  let GlobalAlloc::Memory(alloc) = tcx.global_alloc(aid) else { return out };
+  for (off, prov) in alloc.inner().provenance().ptrs().iter() {
+    if off.bytes() < start {
+      continue;
+    }
+    if let GlobalAlloc::Function { instance, .. } = tcx.global_alloc(prov.alloc_id()) {
+      out.push((off.bytes() - start, tcx.def_path_str(instance.def_id())));
+    }
+  }
+  out
 }
 
 fn binop_name(op: BinOp) -> String {
